@@ -17,7 +17,9 @@ use_repo()
 
 SGR = re.compile(r"\x1b\[([0-9;]*)m")
 SPICE = ['"', "\\", "->", " -> ", "~~", "++", "\n", "\t", "\x01", "\x7f", "é", "中", "\U0001F600", "̶", "̟", ",", ":", "[", "]",
-         "{", "}", "'", "/", "null", "1", " ", "x", "ab", "\x1b", "\\u0041", "\\n", "-", ">"]
+         "{", "}", "'", "/", "null", "1", " ", "x", "ab", "\x1b", "\\u0041", "\\n", "-", ">",
+         # text that Unicode normalisation would change: decomposed accents, compatibility singletons, Hangul jamo
+         "e\u0301", "Ame\u0301lie", "\u212b", "\u2126", "\u212a", "\u1100\u1161", "\ufb01", "\u00e9"]
 
 
 def spicy_string(r):
